@@ -163,10 +163,21 @@ Definition UnMarshalTransaction (b : bytes) : parse (tx SubT) :=
   compose (unmarshal_tx sc b) (tx_of_pb_body SubT sub_dec sub_nil Gen.sites).
 Definition UnMarshalTransactions (b : bytes) : parse (list (tx SubT)) :=
   compose (unmarshal_txs sc b) (txs_of_pb SubT sub_dec sub_nil Gen.sites).
-Definition UnMarshalBlockHeader (b : bytes) : parse (option (hdr ReqT)) :=
-  compose (unmarshal_hdr sc b) (hdr_of_pb_body ReqT req_dec req_nil Gen.sites Gen.recvs).
+(* since /repo 15a1dce a header that PbToBlockHeader rejects (nil: missing or malformed PreTime/CurTime) is an error of
+   UnMarshalBlockHeader / UnMarshalBlock, not a nil header with a nil error *)
+Definition need {A B} (f : A -> option B) (r : parse A) : parse B :=
+  match r with
+  | PVal a => match f a with Some v => PVal v | None => PErr end
+  | PErr => PErr | PPanic => PPanic | PFuel => PFuel
+  end.
+Lemma need_total {A B} (f : A -> option B) r : r <> PPanic /\ r <> PFuel -> need f r <> PPanic /\ need f r <> PFuel.
+Proof. intros [H1 H2]. destruct r as [a| | |]; cbn; try congruence; [destruct (f a)|]; split; discriminate. Qed.
+
+Definition UnMarshalBlockHeader (b : bytes) : parse (hdr ReqT) :=
+  need (fun o => o) (compose (unmarshal_hdr sc b) (hdr_of_pb_body ReqT req_dec req_nil Gen.sites Gen.recvs)).
 Definition UnMarshalBlock (b : bytes) : parse (block SubT ReqT) :=
-  compose (unmarshal_block sc b) (block_of_pb SubT sub_dec sub_nil ReqT req_dec req_nil Gen.sites Gen.recvs).
+  need (fun k => match k.(c_Header _ _) with Some _ => Some k | None => None end)
+       (compose (unmarshal_block sc b) (block_of_pb SubT sub_dec sub_nil ReqT req_dec req_nil Gen.sites Gen.recvs)).
 Definition UnMarshalGroup (b : bytes) : parse group :=
   compose (unmarshal_group sc b) (group_of_pb Gen.sites Gen.recvs).
 
@@ -187,9 +198,9 @@ Proof. tot (tx_body_total SubT sub_dec sub_nil Gen.sites eq_refl). Qed.
 Theorem UnMarshalTransactions_total b : UnMarshalTransactions b <> PPanic /\ UnMarshalTransactions b <> PFuel.
 Proof. tot (txs_total SubT sub_dec sub_nil Gen.sites eq_refl). Qed.
 Theorem UnMarshalBlockHeader_total b : UnMarshalBlockHeader b <> PPanic /\ UnMarshalBlockHeader b <> PFuel.
-Proof. tot (hdr_body_total ReqT req_dec req_nil Gen.sites Gen.recvs eq_refl). Qed.
+Proof. apply need_total. tot (hdr_body_total ReqT req_dec req_nil Gen.sites Gen.recvs eq_refl). Qed.
 Theorem UnMarshalBlock_total b : UnMarshalBlock b <> PPanic /\ UnMarshalBlock b <> PFuel.
-Proof. tot (block_total SubT sub_dec sub_nil ReqT req_dec req_nil Gen.sites Gen.recvs eq_refl eq_refl eq_refl). Qed.
+Proof. apply need_total. tot (block_total SubT sub_dec sub_nil ReqT req_dec req_nil Gen.sites Gen.recvs eq_refl eq_refl eq_refl). Qed.
 Theorem UnMarshalGroup_total b : UnMarshalGroup b <> PPanic /\ UnMarshalGroup b <> PFuel.
 Proof. tot (group_total Gen.sites Gen.recvs eq_refl). Qed.
 
@@ -203,7 +214,7 @@ Qed.
 
 Theorem hdr_bytes_roundtrip h : hdr_wf ReqT req_enc req_dec h ->
   (forall p, hdr_to_pb ReqT req_enc h = Some p -> pb_hdr_ok p) ->
-  exists b, MarshalBlockHeader h = Some b /\ UnMarshalBlockHeader b = PVal (Some h).
+  exists b, MarshalBlockHeader h = Some b /\ UnMarshalBlockHeader b = PVal h.
 Proof.
   intros W O. destruct (hdr_roundtrip ReqT req_enc req_dec req_nil Gen.sites Gen.recvs h W) as (p & P1 & P2).
   unfold MarshalBlockHeader. rewrite P1. rewrite marshal_hdr_some. eexists; split; [reflexivity|].
@@ -216,7 +227,8 @@ Theorem block_bytes_roundtrip k p b : block_wf SubT sub_enc sub_dec ReqT req_enc
 Proof.
   intros W P O M. destruct (block_roundtrip SubT sub_enc sub_dec sub_nil ReqT req_enc req_dec req_nil Gen.sites Gen.recvs k eq_refl W) as (p' & P1 & P2).
   rewrite P in P1. injection P1 as <-.
-  unfold UnMarshalBlock. rewrite (unmarshal_marshal_block _ _ O M). unfold compose. rewrite P2. reflexivity.
+  unfold UnMarshalBlock. rewrite (unmarshal_marshal_block _ _ O M). unfold compose. rewrite P2.
+  destruct W as ((h & Eh & _) & _). unfold need, block_wire_view. cbn. rewrite Eh. reflexivity.
 Qed.
 
 Theorem group_bytes_roundtrip g p b : group_wf g -> group_to_pb g = Ok p -> pb_group_ok p ->
